@@ -714,3 +714,42 @@ Proof.
     destruct (fin_dlen c q <=? 65535) eqn:E; [lia|]. eexists. reflexivity.
   - cbn [bind fin_params]. rewrite S2 by reflexivity. eexists. reflexivity.
 Qed.
+
+(* ================= non-vacuity ================= *)
+Definition ex_conf (crc large : Z) : PduConfig :=
+  {| cf_src := {| ubf_val := 258; ubf_len := 2 |}; cf_dst := {| ubf_val := 65535; ubf_len := 2 |};
+     cf_seq := {| ubf_val := 4294967295; ubf_len := 4 |};
+     cf_mode := 1; cf_large := large; cf_crc := crc; cf_dir := 0; cf_segctrl := 1 |}.
+Lemma ex_conf_valid crc large : flag crc -> flag large -> conf_valid (ex_conf crc large).
+Proof.
+  intros Fc Fl. unfold conf_valid, ubf_valid, width_ok, flag, ex_conf in *.
+  cbn [cf_src cf_dst cf_seq cf_mode cf_large cf_crc cf_dir cf_segctrl ubf_val ubf_len].
+  repeat split; try lia; auto.
+Qed.
+Definition ex_resp1 : fsresp :=   (* rename "a" -> "bä" succeeded, message 01 02 *)
+  {| fp_action := 2; fp_status := 32; fp_first := [97]; fp_second := [98; 195; 164]; fp_msg := [1; 2] |}.
+Definition ex_resp2 : fsresp :=   (* create file "" not allowed *)
+  {| fp_action := 0; fp_status := 1; fp_first := []; fp_second := []; fp_msg := [] |}.
+Definition ex_fin : FinParams :=
+  {| fn_cc := 4; fn_dc := 1; fn_fs := 1; fn_resps := [ex_resp1; ex_resp2];
+     fn_fault := Some {| tlv_type := 6; tlv_value := [1; 2] |} |}.
+Lemma ex_resp_valid : resp_valid ex_resp1 /\ resp_valid ex_resp2.
+Proof.
+  unfold resp_valid, ex_resp1, ex_resp2, wf_bytes. cbn [fp_action fp_status fp_first fp_second fp_msg].
+  split; repeat split; try reflexivity; try (vm_compute; congruence); try lia; repeat constructor; lia.
+Qed.
+Example fin_valid_example : fin_valid (ex_conf 1 0) ex_fin /\ fin_params_std ex_fin.
+Proof.
+  split; [|reflexivity]. unfold fin_valid. split; [apply ex_conf_valid; [right|left]; reflexivity|].
+  split; [unfold cc_valid, ex_fin; cbn [fn_cc]; lia|]. split; [right; reflexivity|].
+  split; [unfold ex_fin; cbn [fn_fs]; lia|].
+  split; [unfold ex_fin; cbn [fn_resps]; destruct ex_resp_valid as [H1 H2]; constructor; [exact H1|constructor; [exact H2|constructor]]|].
+  split; [unfold fault_valid, ex_fin, wf_bytes; cbn [fn_fault tlv_type tlv_value]; repeat split; try reflexivity;
+          try (vm_compute; congruence); repeat constructor; lia|].
+  vm_compute. congruence.
+Qed.
+Example fin_layout_example :
+  fin_layout (ex_conf 0 0) ex_fin =
+  [44; 0; 23; 147; 1; 2; 255; 255; 255; 255; 255; 255; 5; 69;
+   1; 10; 32; 1; 97; 3; 98; 195; 164; 2; 1; 2;  1; 3; 1; 0; 0;  6; 2; 1; 2].
+Proof. vm_compute. reflexivity. Qed.
